@@ -48,32 +48,36 @@ pub fn import2(input: Span) -> PResult<Item> {
 }
 
 pub fn use2<'a>(start: Span, input: Span<'a>) -> PResult<'a, Item> {
-    map(
-        terminated(
-            (
-                context(
-                    "Expected string.",
-                    terminated(quoted_sass_string, ignore_comments),
-                ),
-                opt(preceded(
-                    terminated(tag("with"), ignore_comments),
-                    with_arg,
-                )),
-                opt(preceded(terminated(tag("as"), ignore_comments), as_arg)),
-                position,
-            ),
-            semi_or_end,
-        ),
-        |(s, w, n, end)| {
-            Item::Use(
-                s,
-                n.unwrap_or(UseAs::KeepName),
-                w.unwrap_or_default(),
-                start.up_to(&end).to_owned(),
-            )
-        },
+    fn as_clause(input: Span) -> PResult<Option<UseAs>> {
+        opt(preceded(terminated(tag("as"), ignore_comments), as_arg))
+            .parse(input)
+    }
+    let (input, s) = context(
+        "Expected string.",
+        terminated(quoted_sass_string, ignore_comments),
     )
-    .parse(input)
+    .parse(input)?;
+    let (input, n) = as_clause(input)?;
+    let (input, w) =
+        opt(preceded(terminated(tag("with"), ignore_comments), with_arg))
+            .parse(input)?;
+    // Sass has `as` before `with`, but rsass used to require them the
+    // other way around, so accept that as well.
+    let (input, n) = if n.is_none() {
+        as_clause(input)?
+    } else {
+        (input, n)
+    };
+    let (input, end) = terminated(position, semi_or_end).parse(input)?;
+    Ok((
+        input,
+        Item::Use(
+            s,
+            n.unwrap_or(UseAs::KeepName),
+            w.unwrap_or_default(),
+            start.up_to(&end).to_owned(),
+        ),
+    ))
 }
 
 pub fn forward2<'a>(start: Span, input: Span<'a>) -> PResult<'a, Item> {
